@@ -87,8 +87,9 @@ def parse_terse(out, names):
         if m: r.covers = (int(m.group(1)), int(m.group(2)))
         m = re.search(r'Verification Time: ([\d.]+)s', txt)
         if m: r.time = float(m.group(1))
-        fails = re.findall(r'Failed Checks: (.*?)\n\s*File: "(.*?)", line (\d+), in (\S+)', txt)
-        r.failed_desc = [{'desc': d, 'file': f, 'line': int(l), 'in': fn} for d, f, l, fn in fails]
+        # the description of an assertion may itself contain line breaks (long `a && b && c` conditions are wrapped)
+        fails = re.findall(r'Failed Checks: ((?:(?!Failed Checks:).)*?)\n\s*File: "(.*?)", line (\d+), in (\S+)', txt, re.S)
+        r.failed_desc = [{'desc': ' '.join(d.split()), 'file': f, 'line': int(l), 'in': fn} for d, f, l, fn in fails]
         if 'VERIFICATION:- SUCCESSFUL' in txt: r.status = 'ok'
         elif 'VERIFICATION:- FAILED' in txt:
             real = [f for f in r.failed_desc if not FAIL_IGNORE.search(f['desc'])]
